@@ -98,6 +98,14 @@ PRINT_SKELETONS = {
 }
 
 
+# `case UNARY_MINUS`: the operand is printed into a string first; when that text starts with `-` (the literal -2147483648, alone or as
+# the leftmost leaf of a postfix operand) it gets parentheses of its own.  The rest is the ordinary embrace form.
+NEG_LEAD_FORM = re.compile(r"^\s*\{\s*auto\s+operand\s*=\s*std::ostringstream\{\}\s*;\s*embrace\(\s*operand\s*,\s*old\s*,\s*get\(0\)\s*,\s*precedence\s*\)\s*;\s*"
+                           r"if\s*\(\s*const\s+auto\s+text\s*=\s*operand\.str\(\)\s*;\s*!text\.empty\(\)\s*&&\s*text\.front\(\)\s*==\s*'-'\s*\)\s*"
+                           r"os\s*<<\s*\"-\(\"\s*<<\s*text\s*<<\s*'\)'\s*;\s*else\s+os\s*<<\s*'-'\s*<<\s*text\s*;\s*break\s*;\s*\}\s*$")
+FLAGS = {}       # read by emit(): facts about print cases that are not operand modes
+
+
 def print_skeleton(code):
     c = re.sub(r"\s+", "", code)
     c = c.replace("embrace_strict(", "EMB(").replace("embrace(", "EMB(")
@@ -166,6 +174,10 @@ def extract(repo="/repo"):
                         mode += "@" + m.group(3)       # compared against the precedence of another kind
                     ops.append((int(m.group(2)), mode))
             return ops
+        if labels == ["UNARY_MINUS"]:
+            FLAGS["minusParenthesisesNegativeLead"] = bool(NEG_LEAD_FORM.match(code))
+            if FLAGS["minusParenthesisesNegativeLead"]:
+                code = "embrace(os << '-', old, get(0), precedence); break;"      # the operand mode of this case
         if labels and labels[0] in PRINT_SKELETONS and print_skeleton(code) != PRINT_SKELETONS[labels[0]]:
             raise TranslateError("print: the case of %s contains code the printer model does not describe: %r" % (labels[0], print_skeleton(code)[:400]))
         per_kind = {l: operands(l) for l in labels}
@@ -226,6 +238,8 @@ def emit(prec, modes, optext):
     L.append("")
     L.append("/-- operator text of the binary group -/")
     L.append("def opText : List (String × String) := [" + ", ".join("(%s, %s)" % (lean_str(k), lean_str(v)) for k, v in sorted(optext.items())) + "]")
+    L += ["", "/-- `case UNARY_MINUS`: an operand whose text starts with `-` is written in parentheses of its own -/",
+          "def minusParenthesisesNegativeLead : Bool := %s" % ("true" if FLAGS.get("minusParenthesisesNegativeLead") else "false")]
     L += ["", "end UtapModel.PrinterTable", ""]
     return "\n".join(L)
 
